@@ -263,6 +263,40 @@ def _has_tilt(mod):
     return (f'/-- translated from `propagate.py:_has_tilt` (line {fn[0].lineno}); `ntilt` = `len(field.tilt)` per field of `wavefront.data`, in order -/\n'
             f'def hasTilt (ntilt : List Int) : Bool :=\n  {lst}.foldr (fun n rest => if {test} then {hit} else rest) {dflt}\n')
 
+
+def _fft2_composition(mod):
+    """`_fft2(x)`: a composition `shift_out(np.fft.fft2(shift_in(x), norm=…))` read from the source: which of fftshift / ifftshift is
+    applied before and after the transform becomes an index map, the `norm` keyword a normalisation code"""
+    fn = [n for n in ast.walk(mod) if isinstance(n, ast.FunctionDef) and n.name == '_fft2']
+    if not fn: raise Refuse('propagate.py: _fft2 not found')
+    if [a.arg for a in fn[0].args.args] != ['x']: raise Refuse('_fft2: parameters changed')
+    body = [x for x in fn[0].body if not (isinstance(x, ast.Expr) and isinstance(x.value, ast.Constant))]
+    if len(body) != 1 or not isinstance(body[0], ast.Return): raise Refuse('_fft2: body is not a single return')
+    IDX = {'np.fft.fftshift': '((i - (n / (2 : Int))) % n)',      # fftshift(x)[i] = x[(i - n//2) mod n]
+           'np.fft.ifftshift': '((i + (n / (2 : Int))) % n)'}     # ifftshift(x)[i] = x[(i + n//2) mod n]
+    def shift_call(e, what):
+        if not (isinstance(e, ast.Call) and ast.unparse(e.func) in IDX and len(e.args) == 1 and not e.keywords):
+            raise Refuse(f'_fft2: {what} is not a plain np.fft.fftshift / np.fft.ifftshift call: ' + ast.unparse(e)[:60])
+        return ast.unparse(e.func), e.args[0]
+    outer, inner_expr = shift_call(body[0].value, 'the outer step')
+    if not (isinstance(inner_expr, ast.Call) and ast.unparse(inner_expr.func) == 'np.fft.fft2' and len(inner_expr.args) == 1):
+        raise Refuse('_fft2: the middle step is not np.fft.fft2(…)')
+    kw = {k.arg: k.value for k in inner_expr.keywords}
+    if set(kw) - {'norm'}: raise Refuse('_fft2: unexpected fft2 keywords ' + str(sorted(kw)))
+    norm = kw['norm'].value if 'norm' in kw and isinstance(kw['norm'], ast.Constant) else ('backward' if 'norm' not in kw else None)
+    if norm is None: norm = 'backward'
+    code = {'backward': 0, 'ortho': 1, 'forward': 2}.get(norm)
+    if code is None: raise Refuse(f'_fft2: norm={norm!r}')
+    inner, arg = shift_call(inner_expr.args[0], 'the inner step')
+    if ast.unparse(arg) != 'x': raise Refuse('_fft2: the inner step is not applied to x')
+    ln = fn[0].lineno
+    return (f'/-- translated from `propagate.py:_fft2` (line {ln}): index read by the step applied BEFORE the transform (`{inner}`): `y[i] = x[fft2InnerIdx n i]` -/\n'
+            f'def fft2InnerIdx (n i : Int) : Int :=\n  {IDX[inner]}\n\n'
+            f'/-- translated from `propagate.py:_fft2` (line {ln}): index read by the step applied AFTER the transform (`{outer}`) -/\n'
+            f'def fft2OuterIdx (n i : Int) : Int :=\n  {IDX[outer]}\n\n'
+            f'/-- translated from `propagate.py:_fft2` (line {ln}): `norm` of `np.fft.fft2`: 0 = backward (no scaling), 1 = ortho (1/sqrt N), 2 = forward (1/N) -/\n'
+            f'def fft2Norm : Int :=\n  ({code} : Int)\n')
+
 def _guard_call(mod):
     """`propagate_fft` must start by refusing `_has_tilt(wavefront)` with NotImplementedError"""
     fn = [n for n in ast.walk(mod) if isinstance(n, ast.FunctionDef) and n.name == 'propagate_fft'][0]
@@ -277,7 +311,7 @@ def generate(repo):
     body, notes = _generate_scratch(repo)
     mod = ast.parse(open(os.path.join(repo, 'lentil/propagate.py')).read())
     _guard_call(mod)
-    return (body + '\n' + _has_tilt(mod) + '\n' + '\n'.join(_wiring(mod)),
+    return (body + '\n' + _has_tilt(mod) + '\n' + _fft2_composition(mod) + '\n' + '\n'.join(_wiring(mod)),
             notes + ['_has_tilt: fold over the per-field tilt counts; propagate_fft wiring/guards/metadata and scratch_shape over an abstract scalar type'])
 
 def _guarded(fn):
